@@ -17,6 +17,7 @@ import XsdataModel.Proofs.OccursList
 import XsdataModel.Proofs.OccursGroups
 import XsdataModel.Proofs.AttrsField
 import XsdataModel.Proofs.Derive
+import XsdataModel.Proofs.Subst
 
 namespace Props.C02
 open Py Xs.Gen
@@ -470,5 +471,70 @@ example : List.count ['y'] [['x']] ≤ 1 :=
   extension_nonlist_sound extA extB (by decide) _ ext_matches _ _ extA_occurs extB_occurs
     { name := ['y'], index := 0, min := 0, max := 1, path := [⟨.s, 1, 1, 1⟩], sequence := some 1 }
     (by decide) (by decide)
+
+/-! ## 6. substitution groups
+
+An element reference whose element heads a substitution group stands for a choice between the
+head and the members, `substParticle`; `substituteSite` is what `AddAttributeSubstitutions` makes of
+the reference's attr (its `min`/`max` already the products over its path): the head and one clone per
+member, all optional, all with the reference's `max_occurs`. (Local statement: one reference with
+its group; the composition with the enclosing particles is covered by the correspondence ops
+`gen.subst_sites` / `gen.subst_fields` only.) -/
+
+/-- **No field of a substitution group is required**: a valid document may always use another
+member instead. -/
+theorem substitution_never_required (members : List Str) (fresh : Nat) (s f : Site)
+    (hm : members ≠ []) (hf : f ∈ substituteSite members fresh s) : f.min = 0 :=
+  substituteSite_min hm hf
+
+/-- **A non-list field of a substitution group never sees its element twice** -/
+theorem substitution_nonlist_sound (members : List Str) (fresh : Nat) (s : Site) (w : List Str)
+    (hw : Matches (substParticle s.name members s.min s.max) w)
+    (f : Site) (hf : f ∈ substituteSite members fresh s) (hl : f.isList = false) :
+    w.count f.name ≤ 1 :=
+  substitution_nonlist_core members fresh s w hw f hf hl
+
+/-- **Converse sanity**: a list field of a substitution group is needed -/
+theorem substitution_list_needed (members : List Str) (fresh : Nat) (s : Site)
+    (hwf : s.min ≤ s.max) (f : Site) (hf : f ∈ substituteSite members fresh s)
+    (hl : f.isList = true) :
+    ∃ w, Matches (substParticle s.name members s.min s.max) w ∧ 2 ≤ w.count f.name :=
+  substitution_list_needed_core members fresh s hwf f hf hl
+
+/-- `<xs:element ref="h"/>` with `m` substitutable for `h` -/
+def exSubst : Site :=
+  { name := ['h'], index := 1, min := 1, max := 1, path := [⟨.s, 1, 1, 1⟩], sequence := some 1 }
+
+theorem exSubst_sites : substituteSite [['m']] 9 exSubst = [
+    { name := ['h'], index := 1, min := 0, max := 1, path := [⟨.s, 1, 1, 1⟩, ⟨.c, 9, 1, 1⟩],
+      choice := some 9, sequence := some 1 },
+    { name := ['m'], index := 1, min := 0, max := 1, path := [⟨.s, 1, 1, 1⟩, ⟨.c, 9, 1, 1⟩],
+      choice := some 9, sequence := some 1 }] := by
+  decide
+
+theorem exSubst_matches : Matches (substParticle ['h'] [['m']] 1 1) [['m']] :=
+  matches_choice.2 ⟨[[['m']]], by decide, (by
+    intro x hx
+    rw [List.mem_singleton.1 hx]
+    exact (choiceOnce_singles [['h'], ['m']] [['m']]).2 ⟨['m'], by decide, rfl⟩), rfl⟩
+
+/-- the hypotheses are satisfiable: the member's field, the word `[m]` -/
+example : List.count ['m'] [['m']] ≤ 1 :=
+  substitution_nonlist_sound [['m']] 9 exSubst _ exSubst_matches
+    { name := ['m'], index := 1, min := 0, max := 1, path := [⟨.s, 1, 1, 1⟩, ⟨.c, 9, 1, 1⟩],
+      choice := some 9, sequence := some 1 } (by rw [exSubst_sites]; decide) (by decide)
+
+/-- the member's field -/
+def exSubstM : Site :=
+  { name := ['m'], index := 1, min := 0, max := 1, path := [⟨.s, 1, 1, 1⟩, ⟨.c, 9, 1, 1⟩],
+    choice := some 9, sequence := some 1 }
+
+example : exSubstM.min = 0 :=
+  substitution_never_required [['m']] 9 exSubst exSubstM (by decide) (by rw [exSubst_sites]; decide)
+
+example : ∃ w, Matches (substParticle ['h'] [['m']] 0 3) w ∧ 2 ≤ w.count ['m'] :=
+  substitution_list_needed [['m']] 9 { exSubst with min := 0, max := 3 } (by decide)
+    { name := ['m'], index := 1, min := 0, max := 3, path := [⟨.s, 1, 1, 1⟩, ⟨.c, 9, 1, 1⟩],
+      choice := some 9, sequence := some 1 } (by decide) (by decide)
 
 end Props.C02
